@@ -15,7 +15,11 @@ NeverAhead, ResumeExact, completion under fairness; the deviation "checkpoint wr
 must violate it).  Complete runs of the REAL DbSyncer.Sync() (scripted source with drops inside
 commands, pre-stored checkpoints, model Redis target) log every transaction the target executes;
 SystemTrace.tla judges each one: its writes are exactly the stream commands between the previous and
-the new checkpoint, which is a command boundary within what the tool had received."""
+the new checkpoint, which is a command boundary within what the source had sent.  Further runs put the
+tool into a process of its own (servers in another) and SIGKILL it at arbitrary moments - during the
+full sync, between batches, inside a transaction - each time followed by a fresh process that must
+resume from whatever checkpoint the target holds; the same trace specification judges every
+transaction and the final state (every command applied exactly once, checkpoint = end of stream)."""
 import json
 import re
 
@@ -88,7 +92,111 @@ def end_to_end(sc, verdict, thorough, seed):
                           {"family": "offsets", "scenario": s})
     ntx = sum(1 for x in rows if x["e"] == "tgt-exec")
     log("[e2e] %d complete Sync() runs, %d target transactions judged by SystemTrace" % (len(scen), ntx))
-    return states + rt.distinct, trans + rt.generated, {"e2e_runs": len(scen), "e2e_transactions": ntx}, cmds
+    # ---- real process crashes: the tool (a whole Sync()) runs in its own process and is SIGKILLed at arbitrary moments
+    ks, kt, kstats = kill_runs(sc, verdict, thorough, seed)
+    return states + rt.distinct + ks, trans + rt.generated + kt, dict({"e2e_runs": len(scen), "e2e_transactions": ntx}, **kstats), cmds
+
+
+def kill_runs(sc, verdict, thorough, seed):
+    import concurrent.futures
+    import os
+    import random
+    import subprocess
+    import time
+    import vlib
+    from vlib import Infra, log
+    rnd = random.Random(seed * 131 + 3)
+    scen = []
+    for i in range(20 if thorough else 4):
+        d = sc.path("kill-%d" % i)
+        os.makedirs(d)
+        scen.append({"cfg": {"seed": rnd.randrange(1 << 30), "start": rnd.choice([0, 1000, 2 ** 31 + 5, 2 ** 40]), "commands": rnd.choice([30, 45, 60]),
+                             "idles": [rnd.randrange(5, 25)], "idle_ms": rnd.choice([300, 1200]), "frags": [rnd.choice([30, 60, 120]), 0], "pause_us": rnd.choice([15000, 30000, 45000]),
+                             "trace": os.path.join(d, "trace.ndjson"), "dir": d, "budget_ms": 120000},
+                     "kills": [round(rnd.uniform(0.1, 1.8), 3) for _ in range(rnd.choice([2, 3, 4, 5] if thorough else [2, 3]))]})
+
+    def popen(args, cfg):
+        p = subprocess.Popen([vlib.VDRV] + args, stdin=subprocess.PIPE, stdout=subprocess.PIPE, stderr=subprocess.DEVNULL, text=True, env=vlib.GOENV)
+        p.stdin.write(json.dumps(cfg))
+        p.stdin.close()
+        return p
+
+    def wait_for(path, secs):
+        t0 = time.time()
+        while not os.path.exists(path):
+            if time.time() - t0 > secs:
+                return False
+            time.sleep(0.01)
+        return True
+
+    def one(s):
+        cfg, d = s["cfg"], s["cfg"]["dir"]
+        sv = popen(["e2e-servers"], cfg)
+        tool = None
+        try:
+            if not wait_for(os.path.join(d, "addrs.json"), 20):
+                return "servers did not start"
+            addrs = json.load(open(os.path.join(d, "addrs.json")))
+            tcfg = dict(cfg, src=addrs["src"], tgt=addrs["tgt"])
+            tool = popen(["e2e-syncer"], tcfg)
+            for k, delay in enumerate(s["kills"], 1):
+                time.sleep(delay)
+                tool.kill()                        # SIGKILL: no deferred function, no flush, nothing
+                tool.wait()
+                open(os.path.join(d, "restart.%d" % k), "w").write("x")
+                if not wait_for(os.path.join(d, "restart.%d.done" % k), 20):
+                    return "servers did not acknowledge restart %d" % k
+                tool = popen(["e2e-syncer"], tcfg)
+            t0 = time.time()
+            while time.time() - t0 < 90:            # until the source has sent everything and the target stored the end of the stream
+                try:
+                    st = json.load(open(os.path.join(d, "status.json")))
+                except Exception:
+                    st = {}
+                if st.get("sent", 0) > 0 and st.get("sent") == st.get("stream_len") and st.get("stored") == st.get("stream_len"):
+                    break
+                if tool.poll() is not None:         # the tool ended by itself (its "panic = exit"): judge what is there
+                    break
+                time.sleep(0.1)
+            time.sleep(1.2)
+            open(os.path.join(d, "finish"), "w").write("x")
+            if not wait_for(os.path.join(d, "finish.done"), 30):
+                return "servers did not finish"
+            sv.wait(timeout=30)
+            return None
+        finally:
+            for p in (tool, sv):
+                if p is not None and p.poll() is None:
+                    p.kill()
+                    p.wait()
+    with concurrent.futures.ThreadPoolExecutor(max_workers=10) as ex:
+        errs = list(ex.map(one, scen))
+    for s, e in zip(scen, errs):
+        if e:
+            raise Infra("kill scenario %s: %s" % (s["cfg"]["dir"], e))
+    rows, owner = [], []
+    for s in scen:
+        part = vlib.read_ndjson(s["cfg"]["trace"])
+        rows += part
+        owner += [s] * len(part)
+    vlib.write_ndjson(sc.path("trace.ndjson"), rows)
+    rt = vlib.tlc(sc, "SystemTrace", "SystemTrace.cfg", workers=1, timeout=1800)
+    if rt.rc != 0 or rt.depth - 1 != len(rows):
+        raise Infra("TLC failed on the kill traces (rc=%s, judged %d of %d):\n%s" % (rt.rc, rt.depth - 1, len(rows), rt.out[-2000:]))
+    for ln in [int(x) for x in re.findall(r'<<"REJECT", (\d+)>>', rt.out)]:
+        ev = rows[ln - 1]
+        s = owner[ln - 1]
+        before = [x for x in rows[:ln - 1] if x["e"] in ("tgt-exec", "restart", "src-psync")][-5:]
+        verdict.violation({"kind": "kill-" + ev["e"], "kills": len(s["kills"]), "outside_tx": ev.get("ckpt") == -1},
+                          "Sync() in its own process, killed %d times (after %s s): %s violates the life-cycle contract: %s; before it: %s" % (
+                              len(s["kills"]), s["kills"], ev["e"], {k: v for k, v in ev.items() if k != "seq"},
+                              [{k: v for k, v in x.items() if k in ("e", "pushes", "ckpt", "n", "off")} for x in before]),
+                          {"family": "e2e-kill", "scenario": {"cfg": {k: v for k, v in s["cfg"].items() if k not in ("trace", "dir")}, "kills": s["kills"]}})
+    nrestart = sum(1 for x in rows if x["e"] == "restart")
+    resumed = sum(1 for x in rows if x["e"] == "restart" and x["n"] >= 0)
+    log("[e2e-kill] %d runs, %d SIGKILLs (%d with a stored checkpoint to resume from), %d target transactions" % (
+        len(scen), nrestart, resumed, sum(1 for x in rows if x["e"] == "tgt-exec")))
+    return rt.distinct, rt.generated, {"kill_runs": len(scen), "kills": nrestart, "kills_with_checkpoint": resumed}
 
 
 def run(tier, seed, replay=None):
